@@ -1185,6 +1185,9 @@ class InertiaMoment(UnitBase):
         else:
             target_value = self.__value
 
+        if target_value <= 0:
+            raise ValueError("Parameter 'value' must be positive.")
+
         if inplace:
             self.__value = target_value
             self.__unit = target_unit
@@ -1845,6 +1848,10 @@ class TimeInterval(Time):
            >>> dt
            3600.0 sec
         """
+        if inplace is True and \
+                super().to(target_unit=target_unit).value <= 0:
+            raise ValueError("Parameter 'value' must be positive.")
+
         converted = super().to(target_unit=target_unit, inplace=inplace)
 
         if inplace:
@@ -2051,6 +2058,9 @@ class Length(UnitBase):
         else:
             target_value = self.__value
 
+        if target_value <= 0:
+            raise ValueError("Parameter 'value' must be positive.")
+
         if inplace:
             self.__value = target_value
             self.__unit = target_unit
@@ -2249,6 +2259,9 @@ class Surface(UnitBase):
                 self.__UNITS[target_unit]
         else:
             target_value = self.__value
+
+        if target_value <= 0:
+            raise ValueError("Parameter 'value' must be positive.")
 
         if inplace:
             self.__value = target_value
